@@ -103,6 +103,34 @@ def h_periodic(a, inst):
     return True
 
 
+# ------------------------------------------------------------------ fractional action time (stock schedulers, concrete numbers)
+@harness(instances=lambda tier: [{"kind": k} for k in ("test", "vts", "hist", "catch")], q=I(1, 3), pq=I(4, 8), timeout=(60, 300), stock=False)
+def h_periodic_fraction(a, inst):
+    """period pq/4 s, every call consumes q/4 s (q/4 < pq/4) of the scheduler's time: fractions of a second, so real float /
+    datetime clocks (all numbers realised by branching, the run itself is concrete).  Call j is still due at exactly j * period"""
+    from engine.gate import concrete, untraced
+    q, pq = concrete(a.q, 1, 3), concrete(a.pq, 4, 8)
+    with untraced():
+        from reactivex.testing import TestScheduler
+        hist = inst["kind"] == "hist"
+        base = HistoricalScheduler() if hist else (VirtualTimeScheduler() if inst["kind"] == "vts" else TestScheduler())
+        target = CatchScheduler(base, lambda ex: True) if inst["kind"] == "catch" else base
+        period, spent = pq / 4, q / 4
+        calls = []
+
+        def action(state):
+            now = (base.now - UTC_ZERO).total_seconds()
+            calls.append((now, state))
+            base.sleep(timedelta(seconds=spent) if hist else spent)
+            return state + 1
+
+        target.schedule_periodic(timedelta(seconds=period) if hist else period, action, 0)
+        base.advance_to((UTC_ZERO + timedelta(seconds=6 * period + 0.1)) if hist else 6 * period + 0.1)
+        ok = calls == [(j * period, j - 1) for j in range(1, 7)]
+    cover("ran")
+    return ok
+
+
 ENCODED = ["reactivex/scheduler/periodicscheduler.py", "reactivex/scheduler/catchscheduler.py", "reactivex/scheduler/virtualtimescheduler.py",
            "reactivex/scheduler/newthreadscheduler.py", "reactivex/scheduler/eventloopscheduler.py", "reactivex/scheduler/timeoutscheduler.py",
            "reactivex/scheduler/threadpoolscheduler.py", "reactivex/observable/interval.py", "reactivex/observable/timer.py"]
